@@ -398,6 +398,8 @@ def run_case(spec, ctx):
     N = NQ[ctx.tier]
     if kind in ("gauss", "lhs"):
         return _run_sampler_law(spec, ctx, N)
+    if kind == "mixture":
+        return _run_mixture(spec, ctx, N)
     E = spec["E"]
     prows = spec["prows"]
     penv = build.params_env(prows)
@@ -759,6 +761,50 @@ def _run_sampler_law(spec, ctx, N):
 
 
 # ------------------------------------------------------------------ pinned cases ----------
+def _run_mixture(spec, ctx, N):
+    """A disjoint union of two products over the same interval T: a disc of constant radius r whose centre moves
+    with t (first factor depends on the second; its measure pi r^2 |T| is exact for the library too) and an
+    independent rectangle x T, separated in x.  Uniform sampling of the union puts the share
+    pi r^2 / (pi r^2 + w h) of the rows into the first part - at EVERY call on the same object (the parts are
+    weighted by their volumes, which a repeated call must not change).  Exact binomial cell probabilities,
+    chi-square with one degree of freedom, two-stage decision like all laws (a fresh object replays the same
+    call history with 4x the rows)."""
+    r, L, w, h, calls = spec["r"], spec["L"], spec["w"], spec["h"], spec["calls"]
+    C = lambda *v: {"k": "const", "v": list(v)}      # noqa: E731
+    T = {"t": "interval", "var": "t", "lo": C(0.0), "hi": C(L)}
+    A = {"t": "product", "a": {"t": "circle", "var": "x", "c": {"k": "affine", "var": "t", "v0": [0.0, 0.0], "V1": [[0.3], [0.2]]},
+                               "r": C(r)}, "b": T}
+    x0 = 0.3 * L + r + 0.5
+    B = {"t": "product", "a": {"t": "par", "var": "x", "o": C(x0, 0.0), "c1": C(x0 + w, 0.0), "c2": C(x0, h)}, "b": T}
+    E = {"t": "union", "a": A, "b": B, "disjoint": bool(spec["declared"])}
+    feat = "mixture:union-of-products"
+    share = math.pi * r * r / (math.pi * r * r + w * h)
+    classes = ["mixture", f"calls{calls}", "declared-disjoint" if spec["declared"] else "undeclared"]
+
+    def test(n, seed):
+        core.seed_library(seed)
+        with ctx.lib("construct", feature=feat):
+            D = build.domain(E)
+        worst = None
+        for c in range(calls):
+            with ctx.lib("sample_random_uniform", feature=feat, budget_calls=4000 + 40 * n):
+                with warnings.catch_warnings():
+                    warnings.simplefilter("ignore")
+                    P = D.sample_random_uniform(n=n)
+            x = P[:, ["x"]].as_tensor.detach().double().numpy()
+            if len(x) != n:
+                return 0.0, 0, 1.0, "row count (C02)"
+            na = int((x[:, 0] < x0 - 0.25).sum())
+            st_, df, p_ = stats.chi2_one_sample([na, len(x) - na], [share, 1 - share])
+            p_ = min(1.0, p_ * calls)
+            if worst is None or p_ < worst[2]:
+                worst = (st_, df, p_, f"call {c + 1} of {calls} on the same object: share of the rows in the moving-disc part "
+                                      f"{na / len(x):.4f}, measure share {share:.4f}")
+        return worst
+    res = _two_stage(ctx, test, feat, "mixture-share", N, spec)
+    return {"nontrivial": True, "classes": classes, "summary": res}
+
+
 def extra_cases(tier, seed):
     """every primitive, every boundary and each sampler law once per run (deterministic coverage)."""
     C = lambda *v: {"k": "const", "v": list(v)}
@@ -833,6 +879,11 @@ def extra_cases(tier, seed):
         for regime in ("large", "small"):
             out.append({"kind": "bleaf" if E_["t"] == "boundary" else "leaf", "regime": regime, "nsmall": 2,
                         "rng": seed * 100 + 90 + j, "E": E_, "prows": {"p": rows}})
+    # mixture weights of a union of products, asked repeatedly on the same object
+    for j, (r, L, w, h, dec) in enumerate([(1.0, 2.0, 1.5, 1.0, True), (0.7, 0.5, 1.0, 2.0, False),
+                                            (0.5 + (seed % 7) / 10.0, 1.0 + (seed % 5) / 2.0, 1.0 + (seed % 3) / 2.0, 1.0, seed % 2 == 0)]):
+        out.append({"kind": "mixture", "regime": "large", "nsmall": 1, "rng": seed * 100 + 75 + j, "r": r, "L": L, "w": w, "h": h,
+                    "calls": 3, "declared": dec, "prows": {}})
     for j, (shape, n) in enumerate([("interval", 50), ("rect", 50), ("product", 7), ("moving-interval", 20), ("moving-rect", 20)]):
         out.append({"kind": "lhs", "regime": "large", "nsmall": 1, "rng": seed * 100 + 80 + j, "shape": shape,
                     "cen": [1.0, -2.0], "size": [2.0, 1.5], "n": n})
